@@ -6,6 +6,14 @@ PROPS = [json.loads(l) for l in open(os.path.join(HERE, "properties.jsonl"))]
 
 # property -> (technique, level text, level note, design ref)
 CLAIMED = {
+ "C01": ("Hypothesis-generated (rule class, n, parameters) against orthogonal-polynomial exactness identities (SciPy recurrences) and mpmath closed forms (node map, step x mp.diff)",
+         "All 26 rule classes x admissible n (both parities, 2..257) x extra parameters are generated; inside each case every basis degree up to the nominal one is integrated with a condition-scaled tolerance (1e-11, healthy tree <= 3e-14), closed-form rules are compared node by node with the docstring definition evaluated in mpmath, and inadmissible arguments must be rejected. Exploration, not proof: it samples the (class, n, parameter) space but decides each sampled rule completely.",
+         "Trusted: SciPy eval_* recurrences, mpmath, NumPy. Envelope: Gauss-Legendre n<=100, Gauss-Laguerre n<=150, double-exponential rules inside their float64 range. Known finding KF-C01-fejer2 is matched only through the truncated-series buggy model.",
+         "DESIGN.md section 3, C01"),
+ "C02": ("complete enumeration of the 450 shipped angular grids x all (l,m) up to the advertised degree, against independent spherical harmonics",
+         "Thorough enumerates every constructible (method, degree) and integrates every real spherical harmonic with l <= degree (exhaustive: true); quick runs all grids below a cost threshold plus a seeded quarter of the rest and always the two known-finding probes. Oracle: own normalised Legendre recurrence (self-tested against mpmath), tolerance 1e-9 (healthy <= 3.3e-12, defective data >= 5e-5).",
+         "Trusted: the reference harmonics in pbt/oracles/sph.py (self-test vs mpmath on every run), file names as the list of constructible grids. Two data defects are known findings keyed on (method, degree).",
+         "DESIGN.md section 3, C02"),
  "C12": ("exhaustive enumeration of the finite request space + Hypothesis-generated request sequences, against a table oracle read from the data file names",
          "Every integer degree and size request 0..max+3 of the four methods is enumerated (exhaustive for the lookup clause), every table entry is constructed and compared with the data file in the thorough tier, and generated sequences go through the converter, AtomGrid and from_pruned; the oracle is a linear scan over the sorted list of shipped file names, so bisect/dictionary/range slips are caught.",
          "Trusted: the file names under src/grid/data name what is supported (four unreachable extra files are listed in pbt/oracles/data_loader.py); NumPy.",
